@@ -1,4 +1,4 @@
-mod vocab; mod tree; mod val; mod call; mod render; mod refsem; mod expect; mod engine;
+mod vocab; mod tree; mod val; mod call; mod render; mod refsem; mod expect; mod engine; mod meta;
 
 use engine::*;
 use serde_json::{json, Value};
@@ -42,6 +42,10 @@ fn run_replay(job: &Value) {
         p
     }).collect();
     let phs = placeholder_pool(&e, full_ph);
+    let extras: Vec<String> = job["extras"].as_array().map(|a| a.iter().filter_map(|x| x.as_str().map(String::from)).collect()).unwrap_or_default();
+    let samples: Vec<Vec<String>> = job["samples"].as_array().map(|a| a.iter().map(|s| s.as_array().unwrap().iter().map(|k| k.as_str().unwrap().to_string()).collect()).collect()).unwrap_or_default();
+    let thorough = job["tier"].as_str() == Some("thorough");
+    let mut rng = Rng(job["seed"].as_u64().unwrap_or(1).wrapping_mul(0x9E3779B97F4A7C15) ^ shard);
     let file = std::io::BufReader::new(std::fs::File::open(job["beh"].as_str().unwrap()).unwrap());
     for (i, line) in file.lines().enumerate() {
         let i = i as u64;
@@ -52,7 +56,13 @@ fn run_replay(job: &Value) {
         out.stats.items += 1;
         let b = parse_beh(&bv);
         if !b.kinds.iter().all(|k| k == "bad" || v.has_kind(&e, k)) { continue; }
-        let _used = replay_base(&mut out, &v, &e, &b, &pols, &phs, min_ops);
+        let used = replay_base(&mut out, &v, &e, &b, &pols, &phs, min_ops);
+        for (k, (r, outs)) in used.iter().enumerate() {
+            if extras.iter().any(|x| x == "jux") { meta::jux(&mut out, &e, &b, r, outs); }
+            if extras.iter().any(|x| x == "spellings") { meta::spellings(&mut out, &v, &e, &b, r, outs, &pols[k.min(pols.len() - 1)], &mut rng, thorough); }
+            if extras.iter().any(|x| x == "ans") { meta::placeholder_as_constant(&mut out, &e, &b, r, outs); }
+            if extras.iter().any(|x| x == "subst") && k == 0 { meta::substitution(&mut out, &v, &e, &b, r, &samples, &pols[0]); }
+        }
     }
     out.heartbeat(u64::MAX);
     write_stats(job, &mut out, true);
